@@ -337,7 +337,11 @@ def ob_roundtrip(sim, mode, dynamic, variant=None):
         s = _mk(sim, variant)
         if mode in ("disk", "switch"):
             s.folder = os.path.join(tmp, "A")
-        if dynamic:
+        if dynamic == "parabolic" and sim != "Thermal":
+            # a first-order scheme on a damped mechanical problem: the speed is carried from step to step
+            s.Set_Rayleigh_Damping_Coefs(coefM=0.0, coefK=0.2)
+            s.Solver_Set_Parabolic_Algorithm(dt=0.1, alpha=0.5)
+        elif dynamic:
             if sim == "Thermal":
                 s.Solver_Set_Parabolic_Algorithm(dt=0.1, alpha=0.5)
             else:
@@ -758,6 +762,9 @@ def build(tier, seed):
         for mode in modes:
             obs.append(Ob(f"C15.roundtrip.{sim}.{mode}", ob_roundtrip, (sim, mode, False), "X", (f"{SIMS[sim]}::{sim}.Save_Iter", f"{SIMS[sim]}::{sim}.Set_Iter", f"{SIMU}::_Simu.Get_results"),
                           bound="3 solve/save steps on a small mesh, one folder schedule", clause="restore / read / stored-iteration immutability", timeout=300))
+        if sim == "Elastic":
+            obs.append(Ob("C15.roundtrip.Elastic.parabolic", ob_roundtrip, (sim, "memory", "parabolic"), "X", (f"{SIMS[sim]}::{sim}.Save_Iter", f"{SIMS[sim]}::{sim}.Set_Iter"),
+                          bound="3 steps of the theta scheme on a damped elastic problem, in-memory history", clause="the speed carried by a first-order scheme is restored with the displacement", timeout=300))
         if sim == "PhaseField":
             for variant in ("HistoryDamage", "BoundConstrain"):
                 obs.append(Ob(f"C15.roundtrip.{sim}.{variant}", ob_roundtrip, (sim, "memory", False, variant), "X", (f"{SIMS[sim]}::{sim}.Save_Iter", f"{SIMS[sim]}::{sim}.Set_Iter"),
